@@ -272,6 +272,59 @@ func duplexFacts(e *env, p func(format string, args ...any)) {
 		onceOK = false
 	}
 
+	// 6. every other channel of the call is closed in one place only, and that place is the
+	// function literal handed to a sync.Once's Do (two goroutines may want to close it)
+	otherCloses, otherInOnce := 0, 0
+	for _, m := range methods {
+		// closes inside <recv>.<x>Once.Do(func() { ... })
+		inside := map[*ast.CallExpr]bool{}
+		ast.Inspect(m.fd.Body, func(n ast.Node) bool {
+			ce, ok := n.(*ast.CallExpr)
+			if !ok || len(ce.Args) != 1 {
+				return true
+			}
+			se, ok := ce.Fun.(*ast.SelectorExpr)
+			if !ok || se.Sel.Name != "Do" {
+				return true
+			}
+			fse, ok := se.X.(*ast.SelectorExpr)
+			if !ok || !strings.HasSuffix(fse.Sel.Name, "Once") {
+				return true
+			}
+			if id, ok := fse.X.(*ast.Ident); !ok || id.Name != m.recv {
+				return true
+			}
+			if fl, ok := ce.Args[0].(*ast.FuncLit); ok {
+				ast.Inspect(fl.Body, func(k ast.Node) bool {
+					if c, ok := k.(*ast.CallExpr); ok {
+						inside[c] = true
+					}
+					return true
+				})
+			}
+			return true
+		})
+		ast.Inspect(m.fd.Body, func(n ast.Node) bool {
+			ce, ok := n.(*ast.CallExpr)
+			if !ok {
+				return true
+			}
+			id, ok := ce.Fun.(*ast.Ident)
+			if !ok || id.Name != "close" || len(ce.Args) != 1 {
+				return true
+			}
+			if se, ok := ce.Args[0].(*ast.SelectorExpr); ok && se.Sel.Name == "responseReady" {
+				return true
+			}
+			otherCloses++
+			if inside[ce] {
+				otherInOnce++
+			}
+			return true
+		})
+	}
+	otherOK := otherCloses == otherInOnce
+
 	b := func(v bool) string {
 		if v {
 			return "true"
@@ -284,4 +337,5 @@ func duplexFacts(e *env, p func(format string, args ...any)) {
 	p("Definition duplex_response_read_only_after_ready : bool := %s.\n", b(respReadOK))
 	p("Definition duplex_ready_closed_by_defer_in_make_request : bool := %s. (* close(responseReady) occurrences: %d *)\n", b(readyOK), closes)
 	p("Definition duplex_goroutine_started_through_once : bool := %s. (* makeRequest call sites: %d, inside sendRequestOnce.Do: %d *)\n", b(onceOK), calls, inOnce)
+	p("Definition duplex_other_channels_closed_through_once : bool := %s. (* close() of channels other than responseReady: %d, inside a sync.Once's Do: %d *)\n", b(otherOK), otherCloses, otherInOnce)
 }
